@@ -403,6 +403,7 @@ def compare_model(M, interp, op, a, b, node):
                     continue
                 raise AbsRaise(ExcVal('TypeError', ("'<' not supported with NoneType",)), node)
     check_oob(interp, [e for p in pairs for e in p], node)
+    note_data_compare(interp, c, pairs, node)
     out = [cmp_el(c, ea, eb, kind == 'ma') for ea, eb in pairs]
     if tmpl is None:
         e = out[0]
@@ -410,6 +411,27 @@ def compare_model(M, interp, op, a, b, node):
             return MASKED
         return mkbool(e.d)
     return with_sel(Vec.fresh(out, kind=kind, dtype='b1', index=tmpl.index if kind == 'series' else None), a, b)
+
+
+def note_data_compare(interp, c, pairs, node):
+    """a comparison in which observations take part: what stands on the other side (recorded once per site and shape)"""
+    shapes = set()
+    for ea, eb in pairs:
+        da, db = bool(X.data_atoms(ea.d)), bool(X.data_atoms(eb.d))
+        if not (da or db):
+            continue
+        if da and db:
+            shapes.add(('data', None))
+            continue
+        other = eb.d if da else ea.d
+        if X.is_num(other):
+            shapes.add(('num', other[1]))
+        elif other == X.NAN:
+            shapes.add(('nan', None))
+        else:
+            shapes.add(('other', other[0] if isinstance(other, tuple) and other else str(other)))
+    if shapes:
+        interp.event('data-compare', node=node, op=c, shapes=shapes)
 
 
 def py_compare(M, interp, c, a, b, node):
